@@ -414,6 +414,48 @@ try:
                      {"rule": rule, "flag_off": off})
 finally:
     C.close()
+# ------------------------------------------------------------------ 6. one flag, one check, for the three chain rules (previous SKR -> KSR)
+import base64 as _b64
+import types as _types
+from kskm.signer.policy import check_skr_and_ksr as _chain
+
+
+class _Tok:
+    def __init__(self, table):
+        self.table = table
+
+    def find_key_by_label(self, label, key_class, hash_using_hsm=None):
+        e = self.table.get(label)
+        return None if e is None else _types.SimpleNamespace(label=label, public_key=e)
+
+
+_KS = {"ksk_current": skrgen.ksk("Kcur", 0)}
+_ZP = ksrxml.default_zsk_policy(algs=[("RSA", 8, 2048, 65537)])
+_prev = skrgen.simulate_skr(skrgen.honest_request("c16-prev", NOW - D(days=60), 3, [[Z[0], Z[1]], [Z[1]], [Z[1], Z[2]]], _ZP, sign=False),
+                            {i: {"publish": ["ksk_current"], "sign": ["ksk_current"], "revoke": []} for i in (1, 2, 3)}, _KS, _ZP)
+_last = _prev["bundles"][-1]
+_pub = [k for k in _last["keys"] if k["flags"] == 256]
+
+
+def _succ(overlap=D(days=11), first=None):
+    fk = first or _pub
+    return skrgen.honest_request("c16-next", _last["exp"] - overlap, 3, [fk] + [[fk[-1]]] * 2, _ZP, sign=False)
+
+
+_tok_ok = {"Kcur": _b64.b64encode(_KS["ksk_current"]["pub"])}
+CHAIN_RULES = {"chain-keys": ("check_chain_keys", _succ(first=[Z[2], Z[0]]), _tok_ok), "chain-overlap": ("check_chain_overlap", _succ(overlap=D(days=3)), _tok_ok),
+               "chain-key-on-token": ("check_chain_keys_in_hsm", _succ(), {}), "chain-honest": (None, _succ(), _tok_ok)}
+for rule, (flag, ksr_, table) in CHAIN_RULES.items():
+    for off in [None, "check_chain_keys", "check_chain_keys_in_hsm", "check_chain_overlap"]:
+        pol = RequestPolicy(**({off: False} if off else {}))
+        r_ = vlib.run_impl(_chain, skrgen.k_request(ksr_), skrgen.k_response(_prev), pol, [_Tok(table)])
+        count("chain-flag-matrix")
+        acc = r_[0] == "ok"
+        want = flag is None or off == flag
+        if acc != want:
+            fail("one-flag-one-check", f"previous SKR -> KSR violating only '{rule}' with {off or 'no flag'} off: {'accepted' if acc else 'refused (' + r_[2] + ')'}; "
+                 + (f"only {flag} may waive it" if flag else "an honest successor is acceptable under every flag setting"), {"rule": rule, "flag_off": off})
+
 metas = C.run(rep, props, "C16", shard=10)
 import shutil
 
